@@ -182,6 +182,63 @@ engb_prop!(C12, "C12", ALL_FL, true, true, 48_000, 1_500_000,
 // ------------------------------------------------------------------------------------------ C13
 // single-threaded histories (Engine A) plus multi-threaded clone/drop interleavings (Engine B)
 
+/// Metamorphic half of C13: the same history with every allocation made through the borrowed API and
+/// with every allocation made through the owned API must produce the same stream of observations
+/// (result, offset, capacity, buffer extent, allocated, discarded, remaining, free list) - an owned handle
+/// releases exactly what the borrowed handle would have. refs() is not compared (owned handles embed an
+/// arena value), and neither are the clone / drop-arena steps, whose choice of arena value depends on it.
+fn owned_vs_borrowed(c: &CaseA, classes: &mut BTreeSet<&'static str>) -> Option<crate::enga::Viol> {
+    use crate::case::Op;
+    use crate::enga::Viol;
+    let with = |owned: bool| -> Vec<Op> {
+        c.ops
+            .iter()
+            .map(|op| match op {
+                Op::AllocBytes { n, via, .. } => Op::AllocBytes { n: n.clone(), owned, via: *via },
+                Op::AllocAligned { ty, n, via, .. } => Op::AllocAligned { ty: *ty, n: n.clone(), owned, via: *via },
+                Op::AllocTyped { ty, via, .. } => Op::AllocTyped { ty: *ty, owned, via: *via },
+                o => o.clone(),
+            })
+            .collect()
+    };
+    if !c.ops.iter().any(|op| matches!(op, Op::AllocBytes { .. } | Op::AllocAligned { .. } | Op::AllocTyped { .. })) {
+        return None;
+    }
+    let mode = crate::enga::Mode { trace: true, drop_zero_now: true, ..crate::enga::Mode::default() };
+    crate::enga::set_owner(Some("C13"));
+    let a = crate::enga::run_case(&CaseA { cfg: c.cfg.clone(), ops: with(false) }, mode.clone());
+    let b = crate::enga::run_case(&CaseA { cfg: c.cfg.clone(), ops: with(true) }, mode);
+    crate::enga::set_owner(None);
+    if a.viol.is_some() || b.viol.is_some() || a.foreign.is_some() || b.foreign.is_some() {
+        // a predicate failed in a variant: report it as it is (the owner filter decides whose it is)
+        return a.viol.or(b.viol).or(a.foreign).or(b.foreign);
+    }
+    classes.insert("owned-vs-borrowed-compared");
+    if a.trace.len() != b.trace.len() {
+        return Some(crate::enga::viol!("C13", "owned-vs-borrowed-length", "borrowed variant made {} steps, owned variant {}", a.trace.len(), b.trace.len()));
+    }
+    for (x, y) in a.trace.iter().zip(b.trace.iter()) {
+        if matches!(c.ops.get(x.op), Some(Op::CloneArena) | Some(Op::DropArena { .. })) {
+            continue;
+        }
+        // the result string of a non-allocating step is harness bookkeeping (which handle object a Drop
+        // index lands on); the state after the step is what is compared
+        let is_alloc = matches!(c.ops.get(x.op), Some(Op::AllocBytes { .. }) | Some(Op::AllocAligned { .. }) | Some(Op::AllocTyped { .. }));
+        let same = (!is_alloc || x.res == y.res)
+            && x.range == y.range
+            && x.snap.allocated == y.snap.allocated
+            && x.snap.discarded == y.snap.discarded
+            && x.snap.remaining == y.snap.remaining
+            && x.snap.capacity == y.snap.capacity
+            && x.snap.minseg == y.snap.minseg
+            && x.snap.fl == y.snap.fl;
+        if !same {
+            return Some(crate::enga::viol!("C13", "owned-vs-borrowed-differs", "op #{} {:?}: all-borrowed history observes {:?}, all-owned history observes {:?}", x.op, c.ops.get(x.op), x, y));
+        }
+    }
+    None
+}
+
 #[derive(Clone, Debug, serde::Serialize, serde::Deserialize)]
 #[serde(untagged)]
 pub enum CaseC13 {
@@ -203,7 +260,15 @@ impl Prop for C13 {
     }
     fn run(case: &CaseC13) -> CaseReport {
         match case {
-            CaseC13::A(c) => <C13A as Prop>::run(c),
+            CaseC13::A(c) => {
+                let mut r = <C13A as Prop>::run(c);
+                if r.viol.is_none() {
+                    if let Some(v) = owned_vs_borrowed(c, &mut r.classes) {
+                        r.viol = Some(v);
+                    }
+                }
+                r
+            }
             CaseC13::B(c) => {
                 let r = run_case_b(c, &OptsB { detect_races: false, owner: "C13" });
                 let mut classes: BTreeSet<&'static str> = r.classes.clone();
